@@ -78,7 +78,7 @@ def rule_M2(F, R):
     b, paths = _paths(F, R, "M2", TD + "::update")
     for p in paths:
         w = where(b)
-        gets = [e for e in p.events if e["callee"].endswith("HashMap::<K, V, S, A>::get")]
+        gets = [e for e in p.events if e["callee"].endswith("HashMap::<K, V, S, A>::get") or re.search(r"TaskData::get(::<.*>)?$", e["callee"])]
         muts = [e for e in p.events if re.search(r"HashMap::<K, V, S, A>::(insert|remove)$", e["callee"])]
         push = [e for e in p.events if e["callee"].endswith("Vec::<T, A>::push")]
         isome = any(a == ("variant", ("P", "value")) and o == "Some" for (a, o, _bb) in p.atoms)
@@ -465,7 +465,9 @@ def rule_E(F, R):
     for (i, t) in days:
         nm = " ".join(call_names(t))
         a = t["args"][0]
-        val = a.get("k", {}).get("val") if "k" in a else None
+        val = F.const_value(a["k"]) if "k" in a else None
+        if val is not None:
+            val = re.sub(r"_[ui]\w+$", "", str(val))
         if re.search(r"::days$", nm) and str(val) == "180":
             okd = True
         else:
